@@ -340,6 +340,11 @@ def sites(fn, facts=None):
                 i1 = peel_refs(y["init"])
                 if i1.get("k") == "MethodCall" and i1["name"] == "is_standard_layout":
                     flags[y["pat"]["local"]] = root_of(i1["recv"])
+                elif i1.get("k") == "Binary" and i1["op"] == "&&" and _and_only(i1):
+                    # `let row_major = x.is_standard_layout() && width == self.offsets.len();`: true only under the layout test
+                    for z, zanc in with_parents(i1):
+                        if z.get("k") == "MethodCall" and z["name"] == "is_standard_layout" and not any(a_.get("k") == "Unary" and a_["op"] == "!" for a_ in zanc):
+                            flags[y["pat"]["local"]] = root_of(z["recv"])
         # `match x.as_slice_memory_order_mut() { Some(flat) if x.is_standard_layout() && .. => .., _ => <fallback> }`: the arm
         # that receives the buffer is taken only under the layout test
         if anc and anc[-1].get("k") == "Match" and anc[-1].get("src", "Normal") == "Normal" and anc[-1]["scrut"] is n:
